@@ -112,7 +112,7 @@ def is_lazy(ra):
 def same_dtype(a, b):
     """the same element type; the byte order of the memory representation is not part of it ('>i4' holds the same values as '<i4')"""
     a, b = np.dtype(a), np.dtype(b)
-    return a == b or (a.kind == b.kind and a.itemsize == b.itemsize and a.kind in "biuf")
+    return a == b or (a.kind == b.kind and a.itemsize == b.itemsize and a.kind in "biufc")
 
 
 def same_array(a, b, dtype=True):
